@@ -209,7 +209,7 @@ Proof.
   assert (Hpt : exists pb, GS patch_schema (match r_patch r with Some p => json_of_patch p | None => JNull end) pb).
   { unfold resp_utf8 in Hu. destruct (r_patch r) as [p|].
     - apply GS_patch; [apply Hp; reflexivity|exact Hu].
-    - exists [110; 117; 108; 108]. apply GS_other; [constructor|intros r0; discriminate]. }
+    - exists [110; 117; 108; 108]. apply GS_other; [constructor|intros r0; discriminate|intros r0; discriminate]. }
   destruct Hpt as (pb & Hpb).
   assert (Hrb : exists rb, G (match r_rb r with Some l => JArr (map (fun n => JNum (JInt false n)) l) | None => JNull end) rb).
   { destruct (r_rb r) as [l|]; [apply G_nums; apply Hl; reflexivity|eexists; constructor]. }
